@@ -15,7 +15,8 @@ META = {
     "text": "TLC enumerates every client version value (all strings over a 8-10 class alphabet up to a length bound, "
             "the canonical grid {0,1,2,10}^3 and every single-char insertion/deletion/replacement of three seeds, plus "
             "absent/non-UTF-8) with the grammar's verdict; each is sent as real request metadata to real servers "
-            "(socket serve path and HTTP, unary/stream/__describe__, several declared versions and none) and TLC "
+            "(socket serve path -- as a single call and as the second call of a real serve() loop after an accepted / a "
+            "refused call -- and HTTP, unary/stream/__describe__, several declared versions and none) and TLC "
             "judges every observation with Semver!Conforms.",
     "note": "Trusted: Semver.tla's transcription of canonical semver; the concretisation of character classes "
             "(newline class, non-ASCII digit class); direction parsed from the message by two regexes.",
@@ -166,7 +167,7 @@ def run(ctx: Ctx) -> None:
                                                        "client": repr(mdv), "srv": sv}, {"exc": repr(exc)})
             # one long-lived connection: the judged call is the SECOND call of a real serve() loop, after a call that
             # passed the gate ("accepted") or one that was refused ("refused"); the gate applies to every call alike
-            if near or ci % (5 if quick else 3) == 0:
+            if near or ci % (5 if quick else 17) == 0:
                 for sv in (["1.2.0", None] if not near else ["1.2.0", "10.0.2", None]):
                     server, calls = servers[sv]
                     srv_t = [int(x) for x in sv.split(".")] if sv else []
